@@ -105,6 +105,14 @@ CHECKS = {
         technique="abstract interpretation over GF(2)-affine bit forms of three sibling implementations on one symbolic input (cross-checking siblings); affine path constraints for well-formedness",
         note="trusted: model of the five KaitaiStream read primitives; Burst constructors stubbed in the from_hytera_ipsc rule (C01); well-formedness = fixed header, replicated colour nibble, zero pad octets, byte-palindromic codes (checked)",
         ref="DESIGN.md §3 C13"),
+    "C14": dict(
+        text="Static, integer clauses only: the real write_uintvar / read_uintvar / write_sintvar / read_sintvar are interpreted abstractly on a 32-bit (31-bit magnitude, both signs) SYMBOLIC integer. The writer's bin() digit string makes the analysis fork on the position "
+             "of the leading one (one path per bit length, 32 + 62 paths), every bit below it stays a symbol, so each path decides all values of that length at once: shortest octet count, continuation bits 1..1 0, sign bit, and the reader applied to "
+             "prefix | written | trailer (prefix and trailer symbolic) returns exactly the value bits, the sign and the index just past the written octets; out-of-range values hit the writer's assertions. "
+             "The float writers, latitude / longitude / info-time clauses are NOT decided and not claimed.",
+        technique="abstract interpretation over GF(2)-affine bit forms with path splitting on the leading-one position (bit-length classes); string-of-digits model for bin()/slices/int(s, 2)",
+        note="partial claim: decides the uintvar / sintvar clauses for all 2^32 / 2^32-1 values; float (value % 1 * 128**p), latitude / longitude / info-time clauses involve binary floating point and are outside the decided part (DESIGN.md §3 C14)",
+        ref="DESIGN.md §3 C14"),
     "C15": dict(
         text="Static: (1) the LRRP token tables against the type dispatch of read_document and write_part (handled by both or rejected by both, single-octet ids, attribute ids defined); (2) loop-progress rules for the four reader loops; "
              "(3) abstract interpretation of the real as_bytes -> from_bytes -> as_bytes chain on document shapes — the captured documents of the tests, their siblings with an inline constant table, 2-3 documents per buffer, and documents assembled through get_token "
@@ -152,7 +160,6 @@ CHECKS = {
 }
 
 NA_REASON = {
-    "C14": "quantifies over arithmetic of runtime integers/floats inside the varint writers/readers (value-dependent defects); no shape clause large enough to claim — see DESIGN.md §4",
 }
 
 checks = []
